@@ -3,24 +3,33 @@ PROP = dict(
     tie={"modules": ["Sync", "TieC16"],
          "fns": {"insert_chain": ("insert_chain_run", "insert_chain_eqb", "ic_in * ic_out")}},
     suites=[{"bin": "c16", "name": "sync", "n": {"quick": 30, "thorough": 400}, "timeout": 1500}],
-    rule="two producing nodes a and b share a prefix and then diverge (1..12 or 28..40 momentums each, with ZNN sends as content and slot gaps), a third node (wired like zenon.NewZenon) "
-         "starts on a's chain and receives batches from both through ChainBridge.InsertChain: plain extensions and forks of every depth 0..40 ending shorter / equal / one longer / at the source frontier, "
-         "overlaps with the known part, all-known re-deliveries, an element corrupted at a random position (bad signature, momentum signed by a non-elected pillar, changes hash flipped and re-signed, "
-         "missing / extra / tampered account block), duplicates, a removed middle element, a batch starting above the fork point, reversed batches, crafted heights (0, frontier+k, 2^64-1), the empty batch; "
-         "the local chain evolves with what it accepts. Observables: result class, index, frontier before/after, stored bytes. A case is distinct by (local chain suffix, batch).",
-    explanation="Theorems (for every verification oracle, every local chain, every batch): the resulting chain is a prefix of the old one extended only by momentums that passed verification in order and extended the frontier; "
-                "a failure reports the index of the failing element; known momentums change nothing; own momentums are abandoned only if the batch links to an own momentum at most 30 below the frontier and ends above it; "
+    rule="two producing nodes a and b share a prefix and then diverge (1..12 or 28..40 momentums each, with ZNN sends as content and slot gaps; the branch the receiver is not on overtakes it now and then), "
+         "a third node (wired like zenon.NewZenon) starts on a's chain and receives batches from both through ChainBridge.InsertChain: plain extensions and forks of every depth 0..40 ending shorter / equal / "
+         "one longer / at the source frontier, every kind of batch preceded by 0..6 already known momentums, all-known re-deliveries, an element corrupted at any position of the unknown (sometimes the known) part "
+         "(bad signature, momentum signed by a non-elected pillar, changes hash flipped and re-signed, content header not matching the delivered block, missing / extra / tampered / swapped account block), "
+         "duplicates, a removed middle element, a batch starting above the fork point, reversed batches, crafted heights (0, frontier+k, 2^64-1), the empty batch. The receiver's unconfirmed pool is filled "
+         "through the verified path (blocks of busy and of quiet accounts acknowledging its frontier or a recent own momentum) and batches are delivered that carry those very blocks: included by an honest "
+         "producer where they are valid on its chain, included without verification (force-added / written into the content) where they are not (side chains forking below the acknowledged momentum). "
+         "The local chain evolves with what it accepts. Observables: result class, index, frontier before/after, stored bytes, pool before/after. A case is distinct by (local chain suffix, pool, batch).",
+    explanation="Theorems (for every pair of verification oracles, every local chain and pool, every batch): under the pool invariant (every pooled block passed verification on a state the chain still extends) "
+                "the resulting chain is a prefix of the old one extended only by momentums that passed verification, with every account block verified then or while pooled, and the invariant holds again; the same over whole "
+                "histories of deliveries and received blocks; a rollback leaves nothing of the old pool (and the variant that keeps it adopts an unverified block: refuted); a failure reports the index, in the delivered batch, "
+                "of the element that failed; known momentums change nothing; own momentums are abandoned only if the batch links to an own momentum at most 30 below the frontier and ends above it; "
                 "InsertChain never panics (after fix 777dfea; the old code is refuted). Finding F11: the rollback precedes verification - refuted in general, proved when the delivered chain verifies in order. "
-                "Modelled: protocol/chain_bridge.go InsertChain statement by statement (skip known, link check with nil target, depth 30, strictly longer, RollbackTo, ordered apply with index+start), "
+                "Modelled: protocol/chain_bridge.go InsertChain statement by statement (skip known, link check with nil target, depth 30, strictly longer, RollbackTo, block loop with the already-pooled skip and "
+                "ForceAddAccountBlockTransaction, ordered apply with index+start), accountPool.DeleteMomentum (pool dropped) / InsertMomentum (confirmed blocks leave) / force add (replaces the account's pooled blocks from that height), "
                 "verifier.getContext (previous must be known) and the parent check of ldbManager.Add (a verified momentum not extending the frontier is skipped).",
-    assumptions=["full verification of a delivered momentum and its account blocks (Supervisor.ApplyBlock / ApplyMomentum) is an oracle valid(chain, momentum); the tie instantiates it with the generator's knowledge of which element it corrupted",
+    assumptions=["full verification is two oracles: bvalid(chain, pool, block) = Supervisor.ApplyBlock, mvalid(chain, momentum) = Supervisor.ApplyMomentum; the tie instantiates them with the generator's knowledge of which element / block it corrupted or had included unverified",
+                 "the unconfirmed pool is emptied by a rollback (accountPool.DeleteMomentum): explicit in the model (insert_chain ... clears:=true), compared with the implementation on every run (blocks pooled before and after a call that abandoned own momentums) and by the oracle rollback-drops-unconfirmed-pool",
+                 "a block enters the pool only verified (AddAccountBlocks / InsertChain); BlockTypeContractSend blocks are not modelled (the loop skips them; none is generated)",
                  "the local store is a well-formed chain (consecutive heights, linked hashes) where the theorems say wf_chain",
                  "momentum hashes are compared through 40-bit identifiers in the correspondence check"],
 )
 META = dict(
-    text="Machine-checked Coq theorems about a statement-by-statement Gallina model of ChainBridge.InsertChain, for all local chains, all delivered batches and every verification oracle (induction over the batch), "
-         "tied on every run to three real nodes exchanging forks, corrupted and malformed batches; the F9 panic was confirmed, fixed (777dfea) and proved absent, the F11 ordering defect is carried as refuted + partial.",
+    text="Machine-checked Coq theorems about a statement-by-statement Gallina model of ChainBridge.InsertChain and the account pool around it, for all local chains and pools, all delivered batches and all verification oracles "
+         "(induction over the batch and over histories), tied on every run to three real nodes exchanging forks, corrupted and malformed batches with known prefixes, and chains that carry the receiver's own unconfirmed blocks; "
+         "the F9 panic was confirmed, fixed (777dfea) and proved absent, the F11 ordering defect is carried as refuted + partial.",
     design_ref="DESIGN.md section 5, C16",
-    note="Known finding insertchain-rollback-before-verify (F11): reproduced by the harness on every run; C16_leave_only_for_valid_refuted / _partial. Downloader/fetcher queues are not modelled (they only choose the batches). All theorems closed under the global context.",
+    note="Known finding insertchain-rollback-before-verify (F11): reproduced by the harness on every run; C16_leave_only_for_valid_refuted / _partial. Downloader/fetcher queues are not modelled (they only choose the batches). The account-pool priority rule (non-forced adds) and rebuild errors are outside the model. All theorems closed under the global context.",
     technique="Coq proof (induction over delivered batches, list reasoning) + differential correspondence check on real nodes",
 )
